@@ -23,7 +23,7 @@ class Prop(PropBase):
         "C10_split_concat_time", "C10_assoc", "C10_split_concat_freq", "C10_rejects_empty",
         "C10_rejects_type_mix", "C10_rejects_rate", "C10_rejects_gap", "C10_rejects_labels",
         "C10_freq_needs_radio", "C10_axis_spellings", "C10_source_formulas")]
-    trusted_base = [
+    trusted_base = ["pbverif/extract.py: symbolic evaluation of the method bodies into PbModel/Gen/Concat.lean (trusted to render the source expressions faithfully; tied to the hand model by the C10_source_* theorem)", 
         "PbModel/Concat.lean hand transliteration of transforms.concatenate (tied by correspondence)",
         "u.isclose / u.allclose / Time.isclose tolerances as documented by astropy (parameters of the model)",
     ]
